@@ -477,6 +477,12 @@ class FakeBoto:
                 return f
         return None
 
+    def _garbage(self, idx):
+        for f in self.plan.get("garbage", ()):
+            if f.get("inv", 0) == self.inv and f["api"] == idx:
+                return f
+        return None
+
     def _crash(self, idx, at):
         for c in self.plan.get("crashes", ()):
             if c.get("inv", 0) == self.inv and c["at"] == at and c["n"] == idx:
@@ -515,6 +521,24 @@ class FakeBoto:
         out = fn()
         rec["applied"] = True
         self.last_version = b.version
+        g = self._garbage(idx)
+        if g:
+            # a call that succeeds at HTTP level but whose response the SDK cannot parse
+            self.failed_at = idx if self.failed_at is None else self.failed_at
+            rec["fault"] = {"class": "garbage_response", **g}
+            rec["fail_clk"] = self.clock() if self.clock else 0
+            bad = {"Id": "zz", "Type": "STEP", "Status": "SUCCEEDED"}
+            if g["what"] == "status":
+                bad["Status"] = "WEIRD"
+            elif g["what"] == "type":
+                bad["Type"] = "NOPE"
+            else:
+                bad.pop("Id")
+            key = "NewExecutionState" if kind == "checkpoint" else None
+            if key:
+                out = {**out, key: {**out.get(key, {}), "Operations": list(out.get(key, {}).get("Operations", [])) + [bad]}}
+            else:
+                out = {**out, "Operations": list(out.get("Operations", [])) + [bad]}
         if s is not None:
             b.now = max(b.now, s.now)
         if self.hooks and self.hooks.get("after_apply"):
